@@ -95,14 +95,16 @@ class EvalNode(ConfigScalar(str)):
             gbls = sys.modules[eval_module_name].__dict__
             from_module = True
         else:
-            gbls = {
-                'ayns': Bunch({
-                    'ctx': ctx,
-                    'cfg': ctx.ecfg
-                })
-            }
-            gbls.update(ctx.get_eval_symbols())
-            gbls.update({ '__name__': eval_module_name, '__file__': self._source_file })
+            gbls = { '__name__': eval_module_name, '__file__': self._source_file }
+
+        # the evaluation context, the partially evaluated config and the eval symbols always
+        # belong to the build that is running now, also when the namespace of an earlier
+        # evaluation of the same code is reused
+        gbls['ayns'] = Bunch({
+            'ctx': ctx,
+            'cfg': ctx.ecfg
+        })
+        gbls.update(ctx.get_eval_symbols())
 
         gbls[EvalNode._globals_wrapper_name] = GlobalsWrapper(gbls, ctx.ecfg, ctx, self, path)
 
